@@ -26,6 +26,24 @@ var nsPool = []string{"ns", "ns", "ns", "exempt-ns", "exempt-n", "Exempt-ns", "e
 var userPool = []string{"alice", "alice", "alice", "exempt-user", "exempt-use", "EXEMPT-USER", "", "exempt-ns", "system:admin", "exempt-rc"}
 var rcPool = []string{"", "exempt-rc", "exempt-rc2", "Exempt-rc", "kata", "exempt-user", "exempt-ns"}
 
+// exemptHeavy: exemption hits and near-misses are drawn often (C06, C07, C18); other
+// properties spend most of their budget on requests that reach evaluation.
+var exemptHeavy = true
+
+func pickNS(r *rand.Rand) string {
+	if exemptHeavy || r.Intn(100) < 20 {
+		return pick(r, nsPool)
+	}
+	return "ns"
+}
+
+func pickUser(r *rand.Rand) string {
+	if exemptHeavy || r.Intn(100) < 20 {
+		return pick(r, userPool)
+	}
+	return "alice"
+}
+
 func admLabelValue(r *rand.Rand, key string) string {
 	x := r.Intn(100)
 	if isLevelKey(key) {
@@ -243,7 +261,7 @@ func podScenario(r *rand.Rand, marker bool) scenario {
 	s.World.NSErr = r.Intn(100) < 6
 	s.LVs = candidateLVs([]map[string]string{ls}, s.Cfg.Defaults)
 	p := admPod(r, marker, "the-pod", s.LVs)
-	s.Req = adm.ReqSpec{Group: "", Resource: "pods", Namespace: pick(r, nsPool), Name: "the-pod", User: pick(r, userPool), Op: "CREATE"}
+	s.Req = adm.ReqSpec{Group: "", Resource: "pods", Namespace: pickNS(r), Name: "the-pod", User: pickUser(r), Op: "CREATE"}
 	switch x := r.Intn(100); {
 	case x < 45:
 	case x < 85:
@@ -317,7 +335,7 @@ func controllerScenario(r *rand.Rand, marker bool) scenario {
 	p := admPod(r, marker, "tmpl", s.LVs)
 	p.Namespace = ""
 	ck := adm.ControllerKinds[r.Intn(len(adm.ControllerKinds))]
-	s.Req = adm.ReqSpec{Group: ck.Group, Resource: ck.Resource, Namespace: pick(r, nsPool), Name: "ctl", User: pick(r, userPool), Op: pick(r, []string{"CREATE", "UPDATE", "UPDATE", "CREATE", "DELETE"})}
+	s.Req = adm.ReqSpec{Group: ck.Group, Resource: ck.Resource, Namespace: pickNS(r), Name: "ctl", User: pickUser(r), Op: pick(r, []string{"CREATE", "UPDATE", "UPDATE", "CREATE", "DELETE"})}
 	if r.Intn(100) < 15 {
 		s.Req.Subresource = pick(r, []string{"status", "scale", "x"})
 	}
@@ -702,6 +720,7 @@ func Adm(stream string, seed int64, n int, pf string, mix []string) (*cq.Set, *c
 	in := cq.NewInterner()
 	set := &cq.Set{Stream: stream, Seed: seed, Imports: "Model.Api Model.Pod Model.Checks Model.Admission Corr.Adm", CaseTy: "adm_case", RunFn: "run_adm " + pf,
 		Rule: "admission requests drawn from the decision table of Validate: resource class x subresource (none / the 8 ignored / others) x operation x exemption hits and near-misses per dimension (empty, prefix, case change, value from another list) x dependency answers (lookup ok/err, object and old object ok/err/nil/wrong type, list ok/err, expiry index) x namespace label maps (valid, malformed) x defaults x pods on each side of each level; evaluator = real registry or marker evaluator (50/50); each case also runs the related requests (exemptions cleared, bare pod of the template, as CREATE, without subresource) and records the evaluator's direct answers; distinct by (config, request, world); non-trivial = at least one dependency call, evaluation or metric event"}
+	exemptHeavy = pf == "pf06" || pf == "pf07" || pf == "pf18" || pf == "pf_all"
 	real, marker := innerEvaluator(false), innerEvaluator(true)
 	if pf == "pf11cs" {
 		s := f3Witness()
